@@ -39,7 +39,7 @@ class P(explore.Problem):
         self.targets = fam['cells'] + fam['ranges'] + fam['unbounded']
         self.ops = [('ev', a) for a in self.targets] + \
                    [('set', i, v) for i in fam['inputs'] for v in values]
-        if origin.startswith('inmem') and values:
+        if (origin.startswith('inmem') or origin == 'xlsx-part') and values:
             self.ops.append(('recalc',))          # public API: recalculate every known cell
         if values:
             # the multi-address forms of set_value: a list of addresses with a list of values, a range with a matrix
